@@ -440,6 +440,21 @@ def run(ctx):
                                    "tag": "grid-v%s-len%s-%s" % ("0" if v == 0 else ("1-16" if v <= 16 else ">16"),
                                                                  "legal" if rbech.legal_program(v, ln) else "illegal",
                                                                  "b32" if const == 1 else "b32m")})
+    # ---- B3: grid of non-charset printable ASCII characters at EVERY position after the separator (version, program and the
+    #          six checksum symbols) of valid addresses, lower- and upper-case form: none may be accepted.  A decoder that maps a
+    #          foreign character to some symbol (low five bits, find() == -1, ...) accepts the one that aliases the original.
+    foreign = [chr(c) for c in range(33, 127) if chr(c).lower() not in rbech.CHARSET]
+    for gi in range(6 if not ctx.thorough else 60):
+        n += 1
+        if not ctx.mine(n):
+            continue
+        hrp, v, s_ = gen_valid(rnd)
+        form = s_.upper() if gi & 1 else s_
+        sep = form.rfind("1")
+        for pos in range(sep + 1, len(form)):
+            for c in foreign:
+                c2 = c.upper() if gi & 1 else c
+                judge_D_diff(ctx, {"hrp": hrp, "s": form[:pos] + c2 + form[pos + 1:], "tag": "grid-foreign-%s" % ("checksum" if pos >= len(form) - 6 else "data")})
     # ---- C (shard 0 only: 6 s)
     patterns = []
     if ctx.shard == 0:
